@@ -489,7 +489,8 @@ def gen_state(rng, db, naccounts):
     accs = {k: gen_account_cell(rng, db) for k in keys}
     path = {k: [] for k in keys}
     droot = build_aug(rng, db, [(ubits(k, 256), accs[k], k) for k in keys], 256, path)
-    acell = db.add(G.ORD, '1', [droot])
+    eb, er = extra_bits(rng, db)       # ahme_root$1 root:^(HashmapAug ...) extra:DepthBalanceInfo
+    acell = db.add(G.ORD, '1' + eb, [droot] + er)
     for k in keys:
         path[k].append(acell)
     omq = G.gen_exotic_tree(rng, db, 0, rng.randrange(1, 5))
